@@ -471,6 +471,9 @@ class SP(Robot):
         self.move(tm())
         self._bottom_joints_local = bottom_joints_copy
         self._top_joints_local = top_joints_copy
+        #The Raphson FK solver works from these plate-local tables: keep them in step
+        self._bottom_joints_init = self._bottom_joints_local.conj().transpose()
+        self._top_joints_init = self._top_joints_local.conj().transpose()
         self._bottom_joints_space = bottom_joints_space_new
         self._top_joints_space = top_joints_space_new
         self.move(old_base_pos)
